@@ -191,6 +191,14 @@ func c16Guarded(ctx *vkit.Ctx, tok *c16Token, q *c16Req) bool {
 			}
 		}
 	}
+	// D-C16-11: the profiling routes are served to any read / write token that names an index of
+	// its own (or is global), and /debug/pprof/cmdline prints the command line of the process -
+	// which holds the root token when it was passed as --auth-token. Trigger = non-admin token +
+	// exactly that path (the other profiling routes stay in the generator).
+	if ctx.IsKnown("D-C16-11") && p == "/debug/pprof/cmdline" {
+		ctx.Count("guarded.D-C16-11", 1)
+		return true
+	}
 	return false
 }
 
@@ -504,6 +512,31 @@ func c16Probes(ctx *vkit.Ctx, routes []c16Route, words []string) {
 				}
 			}
 		}
+		return strings.Join(fails, " || ")
+	})
+	// D-C16-11 - the command line (with the root token) is served to read / write tokens
+	ctx.Probe("D-C16-11", func(cs *vkit.Case) string {
+		c16Artifacts = false
+		f := newC16Fix(ctx, cs, [3]string{"alpha", "beta", "gamma"})
+		defer f.close()
+		var fails []string
+		c16WithCmdline(func() {
+			tA := f.mint("read", []string{"alpha"})
+			cs.Op("read[alpha]: GET /debug/pprof/cmdline?index_name=alpha (control: a restricted token must be refused)")
+			rs := f.do("GET", "/debug/pprof/cmdline?index_name=alpha", tA.Token, nil)
+			if bytes.Contains(rs.Body, []byte(c16Root)) {
+				fails = append(fails, fmt.Sprintf("GET /debug/pprof/cmdline?index_name=alpha with a READ token restricted to [alpha] answered %d with the command line of the process, which contains the root token", rs.Code))
+			}
+			for _, role := range []string{"read", "write"} {
+				t := f.mint(role, []string{"*"})
+				m := map[string]string{"read": "GET", "write": "POST"}[role]
+				cs.Op("%s[*]: %s /debug/pprof/cmdline", role, m)
+				rs := f.do(m, "/debug/pprof/cmdline", t.Token, nil)
+				if bytes.Contains(rs.Body, []byte(c16Root)) {
+					fails = append(fails, fmt.Sprintf("%s /debug/pprof/cmdline with a %s token [*] answered %d with the command line of the process (server started as `kektordb --auth-token <root>`), i.e. with the root token: requiredRoleFor (internal/server/middleware.go) asks only read (GET/HEAD) or write for /debug/pprof/*, so a non-admin token obtains the credential that opens /system and /auth", m, strings.ToUpper(role), rs.Code))
+				}
+			}
+		})
 		return strings.Join(fails, " || ")
 	})
 }
